@@ -1,4 +1,6 @@
 import SqlizeModel.Proofs.SpecCreate
+import SqlizeModel.Proofs.SpecTableFk
+import SqlizeModel.Proofs.SpecJustified
 import SqlizeModel.Proofs.TablesClause
 
 namespace Sqlize
@@ -165,8 +167,8 @@ def GroupGoal (dbN : DB) (t : String) (r : Option TableSpec) : Prop :=
   | some tbN => ∃ tb', r = some tb' ∧ tb'.equiv tbN = true
   | none => r = none
 
-/-- **C01 for a whole schema, on the reference engine** (MySQL reader model, default field order; scripts without
-    foreign keys, without inline PRIMARY KEY and COMMENT options; tables on both sides keep the relative order of their
+/-- **C01 for a whole schema, on the reference engine** (MySQL reader model, default field order; scripts without inline PRIMARY KEY; no foreign key found on both sides differs (the recorded region
+    `foreign-key-redefined`); tables on both sides keep the relative order of their
     common columns and their primary key, and none of them is in the recorded region
     `index-redefined-old-columns-dropped`; no table is called like the bookkeeping table).  `Diff` and `MigrationUp`
     return, and the printed up migration — CREATE TABLE with its indexes for the tables only the new side has, the
@@ -178,11 +180,11 @@ theorem schema_spec_up (g : Globals) (hg : g.dialect = .mysql) (hio : g.ignoreOr
     (hpo : old.all Stmt.plainOpts = true) (hpn : new.all Stmt.plainOpts = true)
     (heo : execAll rc [] old = some dbO) (hen : execAll rc [] new = some dbN)
     (hdef : ∀ tb ∈ dbO ++ dbN, tb.name ≠ Migration.defaultMigrationTable)
-    (hnofk : ∀ tb ∈ dbO ++ dbN, tb.fks = [])
     (hboth : ∀ tbO ∈ dbO, ∀ tbN ∈ dbN, tbO.name = tbN.name →
       Abs.OrderCompatible tbN.colNames tbO.colNames ∧ (∀ n ∈ tbN.colNames ++ tbO.colNames, n ≠ "") ∧ tbO.pk = tbN.pk ∧
       (∀ dc : List String, (∀ c ∈ dc, c ∉ tbN.colNames) →
-        ∀ s ∈ tbN.idxs, ∀ o ∈ tbO.idxs, o.name = s.name → o ≠ s → ∃ c ∈ o.cols, c ∉ dc)) :
+        ∀ s ∈ tbN.idxs, ∀ o ∈ tbO.idxs, o.name = s.name → o ≠ s → ∃ c ∈ o.cols, c ∉ dc) ∧
+      (∀ s ∈ tbN.fks, ∀ o ∈ tbO.fks, s.name = o.name → s = o)) :
     ∃ d out, loadAndDiff g old new = .ok d ∧ d.migrationUp g = .ok (d, out) ∧
       (∃ db', execAll false dbO out.flatten = some db' ∧ db'.equiv dbN = true) ∧
       ∀ s ∈ out.flatten, justified dbO dbN s = true := by
@@ -229,29 +231,15 @@ theorem schema_spec_up (g : Globals) (hg : g.dialect = .mysql) (hio : g.ignoreOr
       | some tbO =>
         -- a table both sides have
         have hnO : tbO.name = td.name := find_name dbO _ _ hfO
-        obtain ⟨hcmp, hne, hpk, hred⟩ := hboth tbO (mem_of_find hfO) tbN (mem_of_find hfN) (hnO.trans hnN.symm)
-        obtain ⟨td', htd', hn', cs, dc, is, hcs, his, hrun⟩ := table_spec_up_any g hg hio rc old new dbO dbN ho hn hpo hpn heo hen d hd
-          td.name tbO tbN hfO hfN hcmp hne hpk hred
+        obtain ⟨hcmp, hne, hpk, hred, hnr⟩ := hboth tbO (mem_of_find hfO) tbN (mem_of_find hfN) (hnO.trans hnN.symm)
+        obtain ⟨td', htd', hn', cs, dc, is, hcs, his, hrun⟩ := table_spec_up_fk_any g hg hio rc old new dbO dbN ho hn hpo hpn heo hen d hd
+          td.name tbO tbN hfO hfN hcmp hne hpk hred hnr
         have := huniq td' htd' td htd hn'
         subst this
-        -- no foreign-key statement: neither side has a key
-        obtain ⟨td2, h21, h22, _, _, ⟨hfe, _⟩, _, _⟩ := elems_end_to_end g hg rc old new dbO dbN ho hn heo hen d hd td'.name tbO tbN hfO hfN
-        have := huniq td2 h21 td' htd h22
-        subst this
-        have hfs : td2.migrationForeignKeyUp dc = [] := by
-          unfold Table.migrationForeignKeyUp
-          have hact : td2.action = .none := by
-            obtain ⟨td3, h31, h32, h33, _⟩ := elems_end_to_end g hg rc old new dbO dbN ho hn heo hen d hd td2.name tbO tbN hfO hfN
-            have := huniq td3 h31 td2 htd h32
-            rw [← this]; exact h33
-          rw [hact]
-          apply walkFk_empty
-          rw [hfe, hnofk tbN (List.mem_append_right _ (mem_of_find hfN)), hnofk tbO (List.mem_append_left _ (mem_of_find hfO))]
-          rfl
-        have hjust : ∀ s ∈ cs ++ is ++ td2.migrationForeignKeyUp dc, justified dbO dbN s = true := by
+        have hjust : ∀ s ∈ cs ++ is ++ td'.migrationForeignKeyUp dc, justified dbO dbN s = true := by
           obtain ⟨td4, h41, h42, cs4, dc4, is4, hcs4, his4, hj4⟩ := table_stmts_justified g hg hio rc old new dbO dbN ho hn hpo hpn heo hen d hd
-            td2.name tbO tbN hfO hfN hne hpk
-          have := huniq td4 h41 td2 htd h42
+            td'.name tbO tbN hfO hfN hne hpk
+          have := huniq td4 h41 td' htd h42
           subst this
           rw [hcs] at hcs4
           have e1 := (Prod.mk.inj (Except.ok.inj hcs4)).1
@@ -260,19 +248,23 @@ theorem schema_spec_up (g : Globals) (hg : g.dialect = .mysql) (hio : g.ignoreOr
           rw [his] at his4
           have e3 := Except.ok.inj his4
           subst e3
-          rw [hfs, List.append_nil]
-          exact hj4
-        refine ⟨cs ++ is ++ td2.migrationForeignKeyUp dc, ⟨cs, dc, is, hcs, his, rfl⟩, hjust, ?_⟩
+          obtain ⟨td5, h51, h52, hj5⟩ := fk_stmts_justified g hg rc old new dbO dbN ho hn heo hen d hd td4.name tbO tbN hfO hfN
+          have := huniq td5 h51 td4 htd h52
+          subst this
+          intro s hs
+          rcases List.mem_append.mp hs with h | h
+          · exact hj4 s h
+          · exact hj5 dc s h
+        refine ⟨cs ++ is ++ td'.migrationForeignKeyUp dc, ⟨cs, dc, is, hcs, his, rfl⟩, hjust, ?_⟩
         intro db0 hnd0 hf0
         obtain ⟨db1, tb1, he1, hf1, hc1, hi1, hp1, hn1, hk1, hfr1, hnm1⟩ := hrun db0 hnd0 hf0
-        refine ⟨db1, by rw [hfs, List.append_nil]; exact he1, ?_, hfr1, by rw [hnm1]; exact hnd0⟩
+        refine ⟨db1, he1, ?_, hfr1, by rw [hnm1]; exact hnd0⟩
         unfold GroupGoal
         rw [hfN]
         refine ⟨tb1, hf1, ?_⟩
         unfold TableSpec.equiv
-        rw [hn1, hnN, hc1, hp1, perm_permEq _ _ hi1, hk1 (hnofk tbO (List.mem_append_left _ (mem_of_find hfO))),
-          hnofk tbN (List.mem_append_right _ (mem_of_find hfN))]
-        simp [permEq]
+        rw [hn1, hnN, hc1, hp1, perm_permEq _ _ hi1, perm_permEq _ _ hk1]
+        simp
       | none =>
         -- a table only the new side has
         have hnew : dbO.has td.name = false := by
@@ -281,12 +273,12 @@ theorem schema_spec_up (g : Globals) (hg : g.dialect = .mysql) (hio : g.ignoreOr
           | true =>
             have := (has_iff dbO td.name).mp h
             exact absurd this ((find_none_iff dbO td.name).mp hfO)
-        obtain ⟨td', htd', hn', _, cs, is, hcs, his, hfs, hjc, _, hrun⟩ := created_table_spec g hg rc old new dbO dbN ho hn hpo hpn heo hen d hd
-          td.name tbN hfN hnew (hnofk tbN (List.mem_append_right _ (mem_of_find hfN)))
+        obtain ⟨td', htd', hn', _, cs, is, fs, hcs, his, hfs, hjc, _, hrun⟩ := created_table_spec g hg rc old new dbO dbN ho hn hpo hpn heo hen d hd
+          td.name tbN hfN hnew
         have := huniq td' htd' td htd hn'
         subst this
         refine ⟨cs ++ is ++ td'.migrationForeignKeyUp [], ⟨cs, [], is, hcs, his, rfl⟩,
-          (by rw [hfs, List.append_nil]; exact hjc), ?_⟩
+          (by rw [hfs]; exact hjc), ?_⟩
         intro db0 hnd0 hf0
         have hnot : db0.has td'.name = false := by
           cases h : db0.has td'.name with
@@ -295,7 +287,7 @@ theorem schema_spec_up (g : Globals) (hg : g.dialect = .mysql) (hio : g.ignoreOr
             have := (has_iff db0 td'.name).mp h
             exact absurd this ((find_none_iff db0 td'.name).mp hf0)
         obtain ⟨db1, tb1, he1, hf1, heq1, hfr1, hnm1⟩ := hrun db0 hnd0 hnot
-        refine ⟨db1, by rw [hfs, List.append_nil]; exact he1, ?_, hfr1, ?_⟩
+        refine ⟨db1, by rw [hfs]; exact he1, ?_, hfr1, ?_⟩
         · unfold GroupGoal
           rw [hfN]
           exact ⟨tb1, hf1, heq1⟩
